@@ -19,10 +19,10 @@ NA = {
 }
 CHECKS = {
 "C01": dict(level="fault_enumeration", tech="deterministic simulation: simulated OS (every os.* call) + fault injection (ENOENT/EACCES/EISDIR/EIO, short/torn/flipped/swapped content, TOCTOU, no HOME/cwd, loader failures) + seeded map order; totality oracle with logical step budgets",
-  text="Seeded simulation of the whole loader over a simulated file system: every I/O call site of the library is made to fail in each applicable way, inside loads of generated multi-file layouts (cycles included) and of a schema-driven type-confusion enumeration; each run is judged by the totality oracle (value xor error, no panic, no fatal, logical step budget, faulted required file named in the error). Sampling over a large space: evidence, not proof.",
+  text="Seeded simulation of the whole loader (loader, model and cli entry points) over a simulated file system and process environment: every I/O call site of the library is made to fail in each applicable way, inside loads of generated multi-file layouts (reference cycles of every kind included) and of a schema-driven type-confusion enumeration (path x node kind incl. !reset/!override tags x placement x option set x entry point, exhaustive in the thorough tier); each run is judged by the totality oracle (value xor error, no panic, no fatal, budgets on function entries / call depth / map ranges / I/O events, faulted required file named in the error). Sampling over a large space: evidence, not proof.",
   note="Trusted: simgo rewrites are semantics preserving (repo suite passes on the instrumented copy), zsimrt.FS models the os calls the library makes (ReadFile/Open/Stat/Lstat/Getwd/UserHomeDir/Abs/EvalSymlinks/Environ), step budgets are far above any legitimate load (setup measures the fault-free maximum).", ref="3/C01"),
 "C02": dict(level="exploration", tech="deterministic simulation: seeded control of all 132 map-range sites (sorted/reverse/rotation/permutation per site), load histories in one process; differential oracle across schedules",
-  text="Each generated layout is loaded under several seeded iteration-order schedules of every map range in the library and after a drawn history of other loads; outcomes, projects (DeepEqual) and YAML/JSON bytes must agree. Order-dependent sites are isolated by delta-debugging the schedule. Sampling.",
+  text="Each generated layout is loaded under several seeded iteration-order schedules of every map range in the library and after a drawn history of other loads; outcomes, projects (DeepEqual) and YAML/JSON bytes must agree. Dependence on earlier loads in the process is checked both ways: canary layouts loaded while the process is pristine and re-loaded later, and a sample of evaluations repeated in a fresh child process; one pre-parsed ConfigDetails is loaded twice. Order-dependent sites are isolated by delta-debugging the schedule. Sampling.",
   note="Trusted: simgo's R1 rewrite (checked by the repo suite on the instrumented copy); map order inside dependencies is not controlled (affects error text only, which is not compared).", ref="3/C02"),
 "C05": dict(level="exploration", tech="deterministic simulation: all visit orders of the services map during extends resolution pinned one by one + seeded order of every other map range + simulated disk with missing-base faults; refinement against a reference resolver",
   text="Generated extends chains (same file, other file, other directory, cycles) are loaded once per permutation of the services-map visit order; every schedule must give the same project, which must equal a small reference model of base-then-local on a fixed attribute vocabulary; missing bases and cycles must be errors.",
@@ -37,7 +37,7 @@ CHECKS = {
   text="Generated projects (<=6 services, profiles, required/optional edges, resources) go through seeded histories of profile/enable/disable/select/prune operations; a set-based model predicts enabled/disabled sets, surviving edges and resources after every step; conservation, closure and repeatability are checked.",
   note="Trusted: the set-based reference model (written from the property statement).", ref="3/C14-C15"),
 "C19": dict(level="exploration", tech="deterministic simulation (seeded task scheduler over WithServicesTransform/WithImagesResolved: completion orders, error positions, deadlock detection) + seeded groups of concurrent loads on a pristine -race build (race detector as oracle) + result-equals-solo oracle",
-  text="(a) the library's parallel per-service operations run under the same seeded cooperative scheduler as C13 with exact-result, first-error and deadlock oracles; (b) seeded groups of 2..16 concurrent loads on an un-instrumented -race build, race reports keyed by the pair of compose-go frames, every result compared with the solo load.",
+  text="(a) the library's parallel per-service operations (and, with a shorter budget, the dependency-ordered traversal) run under the same seeded cooperative scheduler as C13 with exact-result, first-error, deadlock and all-callbacks-in-flight oracles; (b) seeded groups of 2..16 concurrent loads (loader and cli entry, optionally sharing the ConfigFiles slice), concurrent traversals of one project and real-thread runs of the parallel operations on an un-instrumented -race build, race reports keyed by the pair of compose-go frames, every result compared with the solo load, a watchdog per group.",
   note="Trusted: Go race detector has no false positives; (b) leaves goroutine interleaving to the real runtime (a cooperative scheduler would add happens-before edges and blind the detector), so (b) is probabilistic and its replay re-runs the group several times.", ref="3/C19"),
 }
 def build(claimed):
